@@ -86,7 +86,7 @@ def judge(case, ctx):
 
 
 def worker(ctx, widx, stage, stats):
-    per = ctx.pick(250, 6000)
+    per = ctx.pick(1000, 12000)
     f = core.hypothesis_search(None, ctx, macrogen.programs(), judge, per, ctx.seed * 1000 + widx, stats,
                                time_budget=ctx.pick(90, 1200))
     return [f] if f else []
